@@ -5,8 +5,12 @@ package btc
 import "github.com/polynetwork/poly/native"
 
 // C17 replay accessors: thin exports of the unexported storage helpers (no logic).
-func VerifC17PutUtxos(n *native.NativeService, chain uint64, key string, u *Utxos) { putUtxos(n, chain, key, u) }
-func VerifC17PutStxos(n *native.NativeService, chain uint64, key string, u *Utxos) { putStxos(n, chain, key, u) }
+func VerifC17PutUtxos(n *native.NativeService, chain uint64, key string, u *Utxos) {
+	putUtxos(n, chain, key, u)
+}
+func VerifC17PutStxos(n *native.NativeService, chain uint64, key string, u *Utxos) {
+	putStxos(n, chain, key, u)
+}
 func VerifC17PutBtcMultiSignInfo(n *native.NativeService, txid []byte, m *MultiSignInfo) error {
 	return putBtcMultiSignInfo(n, txid, m)
 }
